@@ -44,6 +44,24 @@ def run(w: World, rep: Report):
            'an active registry entry is used by every part of an execution: the contracts and plugins of a run (registry '
            'merged with the embedder\'s) reach every tape, including each further script of run_auth_scripts (C09.R1 '
            're-evaluated)', floor=30)
+    # R5: no memoisation.  A result remembered by a caching decorator is handed out again after the registries (ops,
+    # aliases, plugins, contracts - all consulted while compiling and decompiling) have changed, and a cached list or
+    # object is shared between callers.
+    rep.rule('C19.R5', 'no function of the package is memoised (lru_cache / cache / cached_property): results depend on '
+             'the arguments and the current registries only', floor=1)
+    memo = []
+    nfun = 0
+    for fi in w.repo.all_funcs(['functions', 'parsing', 'tools', 'classes']):
+        nfun += 1
+        for d in fi.node.decorator_list:
+            dn = (ast.unparse(d.func) if isinstance(d, ast.Call) else ast.unparse(d)).split('.')[-1]
+            if dn in ('lru_cache', 'cache', 'cached_property', 'memoize', 'memoized'):
+                memo.append((fi.key, dn, fi.node.lineno, w.repo.rel(fi.module.path)))
+    rep.check('C19.R5', 'package|no-memoised-function', not memo, line=memo[0][2] if memo else None,
+              file=memo[0][3] if memo else 'tapescript/functions.py',
+              why='' if not memo else f'{memo[0][0]} is wrapped in @{memo[0][1]}: what it returns for given arguments is fixed by the '
+              f'first call - later add / remove / reset of ops, aliases, plugins or contracts is ignored, and the cached '
+              f'object itself is shared by all callers', facts={'functions_examined': nfun})
     depend(rep, w, 'rules_c20', ('C20.R6',), 'C19.TD20',
            'an entry is used if and only if it is active: name and alias look-ups consult the live registries, never a value '
            'computed from them once at import (C20.R6 re-evaluated)', floor=1)
@@ -312,6 +330,18 @@ def _r2(w: World, rep: Report, eff: Effects):
                 why = '' if ok else 'entry removed without an `x in registry` guard: removing an absent entry raises'
             elif wr.op in ('store',):
                 ok = True
+                # adding under a key that is already registered files the new entry (the dict store replaces): an early
+                # silent `return` when the key is present keeps the old entry active and skips the validation of the new
+                if key.split('.')[-1].startswith('add_'):
+                    regname0 = root[2:]
+                    for iff in [x for x in ast.walk(fi.node) if isinstance(x, ast.If)]:
+                        t0 = iff.test
+                        if isinstance(t0, ast.Compare) and len(t0.ops) == 1 and isinstance(t0.ops[0], ast.In) and \
+                                ast.unparse(t0.comparators[0]) == regname0 and \
+                                any(isinstance(b0, ast.Return) for b0 in iff.body):
+                            ok = False
+                            why = (f'`if {ast.unparse(t0)}: return` - re-adding under a registered key silently keeps the old entry: '
+                                   f'the entry added last is not the active one')
                 # the key whose presence is tested is the key stored under: a test on the caller's spelling with the
                 # entry filed under a normalised spelling (or the reverse) lets duplicates through / rebinds entries
                 regname = root[2:]
